@@ -164,15 +164,18 @@ func main() {
 					return base
 				}
 				usesTime := false
+				labeled := map[*ast.RangeStmt]bool{}
+				for _, im := range f.Imports {
+					switch ip := strings.Trim(im.Path.Value, "\""); ip {
+					case "math/rand", "math/rand/v2", "crypto/rand", "hash/maphash":
+						sites = append(sites, site{ID: filepath.Base(relFile) + ":import " + ip, Kind: "unowned-source", File: filepath.ToSlash(relFile), Line: fset.Position(im.Pos()).Line, Expr: "import " + ip})
+					}
+				}
 				ast.Inspect(f, func(nd ast.Node) bool {
 					switch x := nd.(type) {
 					case *ast.LabeledStmt:
 						if rs, ok := x.Stmt.(*ast.RangeStmt); ok {
-							if tv, ok := info.Types[rs.X]; ok {
-								if _, isMap := tv.Type.Underlying().(*types.Map); isMap {
-									die("%s: labeled range over a map is not supported by the rewriter", fset.Position(rs.Pos()))
-								}
-							}
+							labeled[rs] = true
 						}
 					case *ast.RangeStmt:
 						tv, ok := info.Types[x.X]
@@ -183,8 +186,31 @@ func main() {
 						if !isMap {
 							return true
 						}
-						if bt, ok := mt.Key().Underlying().(*types.Basic); !ok || bt.Kind() != types.String {
-							die("%s: range over a map whose key type is %s (only string keys are supported)", fset.Position(x.Pos()), mt.Key())
+						pos0 := fset.Position(x.Pos())
+						xs0 := string(b[fset.Position(x.X.Pos()).Offset:fset.Position(x.X.End()).Offset])
+						unowned := func(why string) {
+							// a shape the seam cannot take over is left as written (native order) and reported: never a reason to stop
+							sites = append(sites, site{ID: siteID(x.Pos(), "range "+xs0), Kind: "range-map-unowned: " + why, File: filepath.ToSlash(relFile), Line: pos0.Line, Expr: xs0})
+						}
+						if bt, ok := mt.Key().Underlying().(*types.Basic); !ok || bt.Info()&(types.IsOrdered) == 0 {
+							unowned("key type " + mt.Key().String() + " has no canonical order")
+							return true
+						}
+						if labeled[x] {
+							unowned("labeled loop")
+							return true
+						}
+						if x.Key != nil {
+							if _, ok := x.Key.(*ast.Ident); !ok {
+								unowned("range key is not an identifier")
+								return true
+							}
+						}
+						if x.Value != nil {
+							if _, ok := x.Value.(*ast.Ident); !ok {
+								unowned("range value is not an identifier")
+								return true
+							}
 						}
 						n++
 						pos := fset.Position(x.Pos())
@@ -221,16 +247,36 @@ func main() {
 						if valName != "" {
 							fmt.Fprintf(&pre, "%s %s %s[%s]; _ = %s; ", valName, asg, mv, kv, valName)
 						}
-						hdr := fmt.Sprintf("{ %s := %s; for _, %s := range verifseam.Keys(%q, %s) { %s", mv, xs, kv, id, mv, pre.String())
+						hdr := fmt.Sprintf("{ %s := %s; for _, %s := range verifseam.Keys(%q, %s) { if _, verifOK := %s[%s]; !verifOK { continue }; %s", mv, xs, kv, id, mv, mv, kv, pre.String())
 						edits = append(edits, edit{fset.Position(x.Pos()).Offset, fset.Position(x.Body.Lbrace).Offset + 1, hdr})
 						edits = append(edits, edit{fset.Position(x.Body.Rbrace).Offset + 1, fset.Position(x.Body.Rbrace).Offset + 1, " }"})
 					case *ast.CallExpr:
 						sel, ok := x.Fun.(*ast.SelectorExpr)
-						if !ok || sel.Sel.Name != "Now" {
+						if !ok {
 							return true
 						}
 						pk, ok := sel.X.(*ast.Ident)
 						if !ok {
+							return true
+						}
+						if pn, ok := info.Uses[pk].(*types.PkgName); ok {
+							// answers of the environment the seam does not own: reported, so that C13 knows to rely on its
+							// fresh-process runs for them (and says so in its evidence)
+							path, fn := pn.Imported().Path(), sel.Sel.Name
+							src := ""
+							switch {
+							case path == "os" && (fn == "Getpid" || fn == "Getppid" || fn == "Hostname" || fn == "Getwd" || fn == "Environ" || fn == "Getenv" || fn == "LookupEnv" || fn == "UserHomeDir" || fn == "TempDir" || fn == "MkdirTemp" || fn == "CreateTemp" || fn == "Executable" || fn == "Getuid"):
+								src = path + "." + fn
+							case path == "time" && (fn == "Since" || fn == "Until"):
+								src = path + "." + fn
+							case path == "runtime" && (fn == "NumCPU" || fn == "NumGoroutine" || fn == "GOMAXPROCS"):
+								src = path + "." + fn
+							}
+							if src != "" {
+								sites = append(sites, site{ID: siteID(x.Pos(), src), Kind: "unowned-source", File: filepath.ToSlash(relFile), Line: fset.Position(x.Pos()).Line, Expr: src})
+							}
+						}
+						if sel.Sel.Name != "Now" {
 							return true
 						}
 						if pn, ok := info.Uses[pk].(*types.PkgName); ok && pn.Imported().Path() == "time" {
